@@ -584,3 +584,57 @@ _lvl("C17", "proof",
 _lvl("C19", "proof",
      "Theorems on the executed labelling sweep: within the block of the bottom-up order that starts at an outlet, every node gets the outlet's label and labels are numbered in order (run_block, block_labels_agree). Block structure of the order, pits and masked labels are tied by correspondence + oracle.",
      "Lean 4 fold proofs of the labelling sweep + bit-exact correspondence + partition oracle")
+
+
+# ----------------------------------------------------------------------------- C20
+
+C20_KINDS = ["single", "single:2", "multi:3ff0000000000000", "pflood", "mst:k:basic", "snap:a:g", "snap:b:e"]
+
+
+def gen_c20(rng, tier):
+    import itertools
+    out = []
+    grids = [gen.Grid("raster", rows=3, cols=3, dy=1.0, dx=1.0, conn="queen", borders=["v", "v", "v", "v"], cache=True, ov=[]),
+             gen.Grid("profile", size=5, dx=1.0, borders=["v", "v"], cache=True, ov=[]),
+             gen.Grid("raster", rows=2, cols=4, dy=1.0, dx=2.0, conn="rook", borders=["l", "l", "v", "c"], cache=False, ov=[])]
+    gm = gen.mesh(random_mod.Random(5), 3, 3, holes=False)
+    k = 0
+    for L in range(1, 5):
+        for seq in itertools.product(C20_KINDS, repeat=L):
+            if tier == "thorough":
+                gs = grids + [gm]
+            else:
+                gs = [grids[k % 3]] if k % 7 else [gm]
+            for g in gs:
+                z = gen.elevation(rng, g, "ints")
+                ops = [("snap:%s%d:%s" % (o[5], j, o[-1])) if o.startswith("snap") else o for j, o in enumerate(seq)]
+                lines = [g.line(), "graph " + " ".join(ops), "update " + gen.hexes(z)]
+                if rng.random() < 0.2:
+                    lines.append("update " + gen.hexes(gen.elevation(rng, g)))
+                out.append(("q%d" % k, lines))
+                k += 1
+    return out
+
+
+def c20_runner(P, exe, model_ok, rng, tier, replay=None):
+    res = generic_runner(P, exe, model_ok, rng, tier, replay)
+    res["coverage"]["exhaustive"] = replay is None
+    return res
+
+
+def c20_nontrivial(si):
+    return any(c.cmd == "graph" and c.O.get("graph") == ["ok"] for c in si.calls)
+
+
+import random as random_mod  # noqa: E402
+
+register("C20", gen=gen_c20, runner=c20_runner, oracles=[oracle.c20], nontrivial=c20_nontrivial,
+         sections={"graph", "single_flow", "rwidth", "dwidth", "gkeys", "ekeys", "snapmeta", "same_array", "update", "input_unchanged"},
+         lean_modules=["FsProofs.Properties.C20"],
+         theorems=["Fs.OpSeq.accepts_iff", "Fs.OpSeq.effects", "Fs.OpSeq.fold_accepts_iff", "Fs.Driver.flagsOf_generated", "Fs.Driver.generated_table_examples"],
+         tags=lambda si: ["accepted" if c20_nontrivial(si) else "refused"] + tags_flow(si)[:1],
+         rule="ALL sequences of length 1..4 over {single, single(2 threads), multi, pflood, mst, graph snapshot, elevation snapshot} (2800), each on a grid (quick: rotating over raster-queen / profile / looped cache-less rook raster / mesh; thorough: on all four), construction + update; non-trivial = accepted sequence",
+         trusted_base=["operator flag table regenerated from the static constexpr members of the operator classes by translate.py", "acceptance logic (add_operator/update_snapshots/constructor checks) modelled by hand as Fs.OpSeq.add/build and pattern-checked by translate.py; tied by exhaustive correspondence over all sequences <= 4"])
+_lvl("C20", "proof",
+     "Theorems for operator lists of ANY length and ANY flag table about the function the model executes: accepts_iff (constructible iff every required input direction matches the direction produced before it, every graph snapshot follows a router, and some operator updates the graph and defines a direction), effects (reported direction = last defining operator; single-column iff every defining operator is single; caller's array returned iff no operator edits elevation). Flag table regenerated from the source each run. Correspondence is exhaustive over all 2800 sequences of length <= 4.",
+     "Lean 4 induction over operator lists + translator-regenerated flag table + exhaustive correspondence over all sequences <= 4")
